@@ -94,7 +94,7 @@ CLAIMS.update({
             "count, neither earlier nor later; plus the segment formulas, law divisors and their monotonicity, CPU time antitone in CPUs, flat beyond each law's bound, memory profile. "
             "Tie: thousands of single-container runs of the real code against the specification, exact on the binary-exact lattice, either-side only at flagged float boundaries on "
             "decimal tick rates; the (law, cpus 1..128) grid of the real scaling functions.", "Props/C05.lean, Proofs/Profile.lean; sqrt/log laws via integer sqrt and an enclosure table"),
-    "C08": ("PARTIAL (one clause for three of the five policies). Lean theorems: (1) EXECUTION NEVER GETS STUCK: on consistent containers (head operator RUNNING once started, the rest ASSIGNED, "
+    "C08": ("PARTIAL (the whole-run clause is a theorem for three of the five policies: naive, the `eudoxia init` starter, overbook). Lean theorems: (1) EXECUTION NEVER GETS STUCK: on consistent containers (head operator RUNNING once started, the rest ASSIGNED, "
             "every parent COMPLETED or earlier in the container) Container.tick / kill / suspend never raise; a whole pool tick and the whole Executor.run_one_tick raise ONLY AT THEIR GATES "
             "(`executor_tick_raises_only_at_the_gates`: from a ready world, after any chain of accepted Assignment constructions in dependency order and with distinct suspension requests, the tick "
             "either succeeds and leaves a ready world or refuses the commands up front - unknown pool, unknown/unsuspendable container, oversold CPU/RAM, wrong operator count - in a well-defined "
@@ -102,8 +102,8 @@ CLAIMS.update({
             "single-operator containers (= the `eudoxia init` starter scheduler) and with multi-operator containers (the default), from any ready world with well-formed pipelines - by induction over "
             "ticks, carrying the ownership/readiness invariants and 'a pipeline with an operator in a container has no operator waiting'; a concrete world (diamond DAG, two pools) meets every "
             "hypothesis (non-vacuity, checked by the kernel); (3) per round of priority / priority-pool: no pool is asked for more CPU or RAM than it has free, assignments are a chain of accepted "
-            "constructions (no operator twice, all PENDING/FAILED before), priority's suspensions are accepted by verify_valid_suspend; overbook: C18. NOT proved: whole-run theorems for priority, "
-            "priority-pool and overbook (for priority-pool the statement is false in one mode: known finding D11); parameter validation and end-of-run aggregation of run_simulator are exercised, "
+            "constructions (no operator twice, all PENDING/FAILED before), priority's suspensions are accepted by verify_valid_suspend; overbook: C18. NOT proved: whole-run theorems for priority and "
+            "priority-pool (for priority-pool the statement is false in one mode: known finding D11); overbook's whole-run theorem is in Props/C18; parameter validation and end-of-run aggregation of run_simulator are exercised, "
             "not modelled. Tie: closed-loop lock-step of each real scheduler + real Executor against the model on generated configurations (tiny pools, coarse ticks, zero-tick segments, both container "
             "modes, DAGs, fractional pool sizes), run_simulator end-to-end incl. the `eudoxia init` template and runs shorter than a tick; `check_C08` on every implementation trace.",
             "Props/C08.lean; Proofs/Progress.lean, Live.lean, WorldLive.lean, NaiveSafe.lean, NaiveLoop.lean, NaiveMulti.lean, NaiveExample.lean (about 4 000 lines of proof)"),
@@ -123,7 +123,7 @@ CLAIMS.update({
             "Tie: closed-loop lock-step; `check_C17` on every implementation trace.", "Props/C17.lean"),
     "C18": ("Lean theorems about the overbook scheduler's round, for every queue and world: every container gets exactly one operator, one CPU and a memory limit equal to its pool's "
             "whole RAM, on a pool that still had a free CPU in the scheduler's snapshot (the snapshot never goes negative: CPU-bound); the operator's pipeline has fewer than three failed "
-            "containers; operators are left in the queue only when no pool has a free CPU; never suspends. Tie: closed-loop lock-step with overcommit and OOM kills; `check_C18` on every implementation trace.", "Props/C18.lean"),
+            "containers; operators are left in the queue only when no pool has a free CPU; never suspends; and the CLOSED LOOP overbook + executor (overcommit on, either container mode) never raises over whole runs, for every sequence of arrival batches (`overbook_run_never_raises`, queue invariant + executor gate theorems; a concrete world meets the hypotheses). Tie: closed-loop lock-step with overcommit and OOM kills; `check_C18` on every implementation trace.", "Props/C18.lean"),
 })
 CLAIMS = {k: v for k, v in CLAIMS.items() if k in READY}
 
